@@ -212,7 +212,11 @@ template <std::size_t N> void check_array_init()
     seq idx;
     for (std::size_t i = 0; i < N; ++i)
       idx.push_back(static_cast<int>(i));
-    VRT_CHECK(log == idx, name + ":index_order", "called with indices %s", show(log).c_str());
+    // documented: "by calling _function(std::integral_constant<std::size_t, Index>) for every index" -- once per index;
+    // the order of the calls is not documented (information counter only)
+    VRT_CHECK(sorted(log) == idx, name + ":index_calls", "called with indices %s, want every index once", show(log).c_str());
+    if (log != idx)
+      vrt::count("info:" + name + ":index_order");
     VRT_CHECK(arr_contents(r) == s, name + ":wrong", "got %s want %s", show(arr_contents(r)).c_str(), show(s).c_str());
   }
 }
@@ -633,6 +637,50 @@ void check_no_steal()
     });
     if (s.size() == 2)
     {
+      // every mix of value categories: only the rvalue arguments may be moved from
+      run("array::append / join / push_back, tuple::concat (mixed lvalues and rvalues)", [&] {
+        using sarr2 = fcppt::array::object<std::string, 2>;
+        using sarr1 = fcppt::array::object<std::string, 1>;
+        auto const same = [&orig](auto const &a) {
+          bool ok = true;
+          for (std::size_t i = 0; i < a.impl().size(); ++i)
+            ok = ok && a.impl()[i] == orig[i % 2];
+          return ok;
+        };
+        sarr2 a{orig[0], orig[1]}, b{orig[0], orig[1]}, c{orig[0], orig[1]};
+        auto const r1 = fcppt::array::append(sarr2{orig[0], orig[1]}, b);
+        VRT_CHECK(same(b) && same(r1), name + ":array::append(&&,&)", "lvalue second argument changed: now [%s,%s]",
+                  b.impl()[0].c_str(), b.impl()[1].c_str());
+        auto const r2 = fcppt::array::append(a, sarr2{orig[0], orig[1]});
+        VRT_CHECK(same(a) && same(r2), name + ":array::append(&,&&)", "lvalue first argument changed: now [%s,%s]",
+                  a.impl()[0].c_str(), a.impl()[1].c_str());
+        auto const r3 = fcppt::array::append(a, b);
+        VRT_CHECK(same(a) && same(b) && same(r3), name + ":array::append(&,&)", "lvalue arguments changed");
+        auto const r4 = fcppt::array::join(a, b, c);
+        VRT_CHECK(same(a) && same(b) && same(c) && same(r4) && r4.impl().size() == 6, name + ":array::join(&,&,&)",
+                  "lvalue arguments changed: c is now [%s,%s]", c.impl()[0].c_str(), c.impl()[1].c_str());
+        auto const r5 = fcppt::array::join(sarr2{orig[0], orig[1]}, b, c);
+        VRT_CHECK(same(b) && same(c) && same(r5), name + ":array::join(&&,&,&)", "lvalue arguments changed");
+        auto const r6 = fcppt::array::join(a, sarr2{orig[0], orig[1]}, c);
+        VRT_CHECK(same(a) && same(c) && same(r6), name + ":array::join(&,&&,&)", "lvalue arguments changed");
+        std::string extra = orig[0];
+        auto const r7 = fcppt::array::push_back(a, extra);
+        VRT_CHECK(same(a) && extra == orig[0] && same(r7), name + ":array::push_back(&,&)", "lvalue arguments changed");
+        auto const r8 = fcppt::array::push_back(sarr2{orig[0], orig[1]}, extra);
+        VRT_CHECK(extra == orig[0] && same(r8), name + ":array::push_back(&&,&)", "lvalue element changed: now %s", extra.c_str());
+        sarr1 one{orig[0]};
+        auto const r9 = fcppt::array::push_back(one, std::string(orig[1]));
+        VRT_CHECK(one.impl()[0] == orig[0] && same(r9), name + ":array::push_back(&,&&)", "lvalue array changed");
+        using stup = fcppt::tuple::object<std::string, std::string>;
+        stup t1{orig[0], orig[1]}, t2{orig[0], orig[1]};
+        auto const tsame = [&orig](stup const &t) { return std::get<0>(t.impl()) == orig[0] && std::get<1>(t.impl()) == orig[1]; };
+        auto const c1 = fcppt::tuple::concat(stup{orig[0], orig[1]}, t2);
+        VRT_CHECK(tsame(t2) && std::get<3>(c1.impl()) == orig[1], name + ":tuple::concat(&&,&)", "lvalue second argument changed");
+        auto const c2 = fcppt::tuple::concat(t1, stup{orig[0], orig[1]});
+        VRT_CHECK(tsame(t1) && std::get<0>(c2.impl()) == orig[0], name + ":tuple::concat(&,&&)", "lvalue first argument changed");
+        auto const c3 = fcppt::tuple::concat(t1, t2);
+        VRT_CHECK(tsame(t1) && tsame(t2) && std::get<2>(c3.impl()) == orig[0], name + ":tuple::concat(&,&)", "lvalue arguments changed");
+      });
       run("array::map / from_range / tuple::map / tuple::push_back (lvalues)", [&] {
         fcppt::array::object<std::string, 2> arr2{orig[0], orig[1]};
         auto const r1 = fcppt::array::map(arr2, by_value);
